@@ -257,14 +257,22 @@ def addUniqueObject [DecidableEq α] (s : Cs α) (v : α) : R (Cs α × Nat) := 
   let index ← indexOfObject s v
   if index = 0 then addObject s v else .ok (s, index)
 
+/-- `if (n > maxobjects) Resize(n);` -/
+def growTo (s : Cs α) (n : Nat) : R (Cs α) :=
+  if n > s.max then resize s n else .ok s
+
+/-- `if (index > numobjects) { for (i = numobjects; i < index; i++) new (objlist + i) Type(); numobjects = index; }` -/
+def fillTo [Inhabited α] (s : Cs α) (index : Nat) : R (Cs α) :=
+  if index > s.num then do
+    let b ← onBuf s
+    let (b, l) ← defaultLoop (index - s.num) s.num b s.led
+    .ok { s with objlist := some b, num := index, led := l }
+  else .ok s
+
 /-- `AddObjectAt(index, obj)` -/
 def addObjectAt [Inhabited α] (s : Cs α) (index : Nat) (v : α) : R (Cs α) := do
-  let s ← if index > s.max then resize s index else .ok s
-  let s ← if index > s.num then do
-      let b ← onBuf s
-      let (b, l) ← defaultLoop (index - s.num) s.num b s.led
-      .ok { s with objlist := some b, num := index, led := l }
-    else .ok s
+  let s ← growTo s index
+  let s ← fillTo s index
   setObjectAt s index v
 
 /-- `RemoveObjectAt(index)`; `true` = `OutOfRangeContainerException` thrown (nothing changed) -/
@@ -292,21 +300,43 @@ def removeObjectPtr (s : Cs α) (off : Nat) : R (Cs α) :=
     let (s, _) ← removeObjectAt s (off + 1)
     .ok s
 
+/-- `for (i = numelements; i < numobjects; ++i) objlist[i].~Type();  numobjects = numelements;` -/
+def cutTo (s : Cs α) (numelements : Nat) : R (Cs α) :=
+  if numelements < s.num then do
+    let b ← onBuf s
+    let (b, l) ← destroyLoop (s.num - numelements) numelements b s.led
+    .ok { s with objlist := some b, num := numelements, led := l }
+  else .ok s
+
 /-- `SetNumObjects(numelements)` (`resize` of the STL-style interface) -/
 def setNumObjects [Inhabited α] (s : Cs α) (numelements : Nat) : R (Cs α) := do
-  let s ← if numelements > s.max then resize s numelements else .ok s
-  let startNum := s.num
-  if numelements < startNum then do
-    -- for (i = numelements; i < startNum; ++i) objlist[i].~Type();
-    let b ← onBuf s
-    let (b, l) ← destroyLoop (startNum - numelements) numelements b s.led
-    .ok { s with objlist := some b, num := numelements, led := l }
-  else if startNum < numelements then do
-    -- for (i = startNum; i < numobjects; ++i) new (objlist + i) Type();
-    let b ← onBuf s
-    let (b, l) ← defaultLoop (numelements - startNum) startNum b s.led
-    .ok { s with objlist := some b, num := numelements, led := l }
-  else .ok { s with num := numelements }
+  let s ← growTo s numelements
+  -- startNum = numobjects; destroy what is cut off; numobjects = numelements; default-construct what is new
+  let s ← cutTo s numelements
+  fillTo s numelements
+
+/-- `InsertObjectAt`, the reallocating branch with an existing buffer `temp`
+    (`maxobjects = numobjects` after the increment: exactly one more slot) -/
+def insertRealloc (s : Cs α) (temp : Buf α) (arrayIndex : Nat) (v : α) : R (Cs α) := do
+  let numobjects := s.num + 1
+  -- for (i = 0; i < arrayIndex; ++i) { new (objlist + i) Type(move(temp[i])); temp[i].~Type(); }
+  let (temp, new, l) ← moveLoop 0 arrayIndex 0 temp (raw numobjects) s.led
+  -- new (objlist + arrayIndex) Type(obj);
+  let (new, l) ← bConstruct new arrayIndex v l
+  -- for (i = arrayIndex; i < numobjects - 1; ++i) { new (objlist + i + 1) Type(move(temp[i])); temp[i].~Type(); }
+  let (_, new, l) ← moveLoop 1 (s.num - arrayIndex) arrayIndex temp new l
+  .ok { s with objlist := some new, num := numobjects, max := numobjects, led := l }
+
+/-- `InsertObjectAt`, the in-place branch for `arrayIndex < numobjects - 1` (after the increment) -/
+def insertShift (s : Cs α) (b : Buf α) (arrayIndex : Nat) (v : α) : R (Cs α) := do
+  -- new (objlist + numobjects - 1) Type(std::move_if_noexcept(objlist[numobjects - 2]));
+  let x ← bRead b (s.num - 1)
+  let (b, l) ← bConstruct b s.num x s.led
+  -- for (i = numobjects - 2; i > arrayIndex; i--) objlist[i] = std::move_if_noexcept(objlist[i - 1]);
+  let b ← shiftUp (s.num - 1 - arrayIndex) arrayIndex b
+  -- objlist[arrayIndex] = obj;
+  let b ← bAssign b arrayIndex v
+  .ok { s with objlist := some b, num := s.num + 1, led := l }
 
 /-- `InsertObjectAt(index, obj)` -/
 def insertObjectAt (s : Cs α) (index : Nat) (v : α) : R (Cs α) :=
@@ -321,24 +351,14 @@ def insertObjectAt (s : Cs α) (index : Nat) (v : α) : R (Cs α) :=
         -- arrayIndex = 0 here; `for (i = 0; i < arrayIndex; ++i) new (objlist + i) Type();` runs 0 times
         let (b, l) ← bConstruct (raw numobjects) arrayIndex v s.led
         .ok { s with objlist := some b, num := numobjects, max := numobjects, led := l }
-      | some temp => do
-        let (temp, new, l) ← moveLoop 0 arrayIndex 0 temp (raw numobjects) s.led
-        let (new, l) ← bConstruct new arrayIndex v l
-        let (_, new, l) ← moveLoop 1 (s.num - arrayIndex) arrayIndex temp new l
-        .ok { s with objlist := some new, num := numobjects, max := numobjects, led := l }
+      | some temp => insertRealloc s temp arrayIndex v
     else do
       let b ← onBuf s
       if arrayIndex = s.num then do
+        -- appending: new (objlist + arrayIndex) Type(obj);
         let (b, l) ← bConstruct b arrayIndex v s.led
         .ok { s with objlist := some b, num := numobjects, led := l }
-      else do
-        -- new (objlist + numobjects - 1) Type(std::move_if_noexcept(objlist[numobjects - 2]));
-        let x ← bRead b (s.num - 1)
-        let (b, l) ← bConstruct b s.num x s.led
-        -- for (i = numobjects - 2; i > arrayIndex; i--) objlist[i] = std::move_if_noexcept(objlist[i - 1]);
-        let b ← shiftUp (s.num - 1 - arrayIndex) arrayIndex b
-        let b ← bAssign b arrayIndex v
-        .ok { s with objlist := some b, num := numobjects, led := l }
+      else insertShift s b arrayIndex v
 
 /-- `Copy(container)` for `&container != this` (callers: copy constructor, `operator=(const&)`) -/
 def copyFrom (s o : Cs α) : R (Cs α) := do
